@@ -8,6 +8,7 @@ import (
 	"net/http"
 	"strings"
 	"sync"
+	"time"
 
 	"google.golang.org/grpc"
 
@@ -36,9 +37,10 @@ type Touch struct {
 }
 
 type Recorder struct {
-	mu   sync.Mutex
-	on   bool
-	list []Touch
+	mu       sync.Mutex
+	on       bool
+	list     []Touch
+	inflight int // filer HTTP handlers that started inside the window and have not finished
 }
 
 // background / connection-level methods that are not caused by an S3 request
@@ -63,7 +65,19 @@ func (r *Recorder) Begin() {
 	r.mu.Unlock()
 }
 
+// End closes the window. The gateway may answer its client before the filer handler it
+// called has finished (it does not always read the filer's answer to the end), so End
+// first waits for the filer HTTP handlers that started inside the window.
 func (r *Recorder) End() []Touch {
+	for i := 0; i < 3000; i++ {
+		r.mu.Lock()
+		n := r.inflight
+		r.mu.Unlock()
+		if n == 0 {
+			break
+		}
+		time.Sleep(time.Millisecond)
+	}
 	r.mu.Lock()
 	defer r.mu.Unlock()
 	r.on = false
@@ -174,10 +188,23 @@ func (r *Recorder) HTTPWrap(h http.Handler) http.Handler {
 	return http.HandlerFunc(func(w http.ResponseWriter, q *http.Request) {
 		sw := &statusWriter{ResponseWriter: w}
 		p := q.URL.Path
+		r.mu.Lock()
+		counted := r.on
+		if counted {
+			r.inflight++
+		}
+		r.mu.Unlock()
 		h.ServeHTTP(sw, q)
 		if sw.st == 0 {
 			sw.st = 200
 		}
-		r.add(Touch{"http", q.Method, p, p, sw.st})
+		r.mu.Lock()
+		if counted {
+			r.inflight--
+			if r.on {
+				r.list = append(r.list, Touch{"http", q.Method, p, p, sw.st})
+			}
+		}
+		r.mu.Unlock()
 	})
 }
